@@ -449,5 +449,9 @@ func (p *Proxy) logErrorf(template string, args ...interface{}) {
 	p.logWithContext(p.log.Errorw, template, args...)
 }
 func (p *Proxy) logWithContext(logFn func(t string, a ...interface{}), t string, a ...interface{}) {
+	if p.dest == nil { // early in the handshake there is no destination yet
+		logFn(fmt.Sprintf(t, a...))
+		return
+	}
 	logFn(fmt.Sprintf(t, a...), "DstAddr", p.dest.ID(), "DstPort", lib.ParsePort(p.dest.conn.conn.LocalAddr().String()))
 }
